@@ -483,3 +483,30 @@ pub mod verif_hooks {
         SieveQS::new(*n, fbase, 0, false).nblocks()
     }
 }
+
+/// Verification hooks (only with `--cfg yamaquasi_verif`): private fields and root
+/// preparation of `SieveQS` (property C12).
+#[cfg(yamaquasi_verif)]
+pub mod verif_hooks_poly {
+    use super::*;
+
+    /// (nsqrt, nsqrt^2 - n, only_odds, nsqrt_mods, nblocks, forward roots, backward roots)
+    /// of the context built by `SieveQS::new(n, fbase, 0, false)`.
+    pub fn vh_qs_roots(
+        n: &Uint,
+        fbase: &FBase,
+    ) -> (I256, I256, bool, Vec<u32>, usize, Vec<(u32, u32)>, Vec<(u32, u32)>) {
+        let qs = SieveQS::new(*n, fbase, 0, false);
+        let fwd = (0..fbase.len()).map(|i| qs.prepare_prime_fwd(i)).collect();
+        let bck = (0..fbase.len()).map(|i| qs.prepare_prime_bck(i)).collect();
+        (
+            qs.nsqrt,
+            qs.nsqrt2_minus_n,
+            qs.only_odds,
+            qs.nsqrt_mods.clone(),
+            qs.nblocks(),
+            fwd,
+            bck,
+        )
+    }
+}
